@@ -143,3 +143,10 @@ def run(ctx):
         ctx.ob('HDR-NO-POS', name, not pos, f.loc(pos[0]) if pos else f.loc(f.body), 'no position field used' if not pos else 'uses %s to compute header contents' % sorted({f.s(n) for n in pos}), None)
 
     block_restore(ctx, prog)
+
+    ctx.rule('WH-STATE', 'every store / increment through a pointer in a function installed in the write_header slot goes to the header cache, to a geometry field recomputed on every call '
+             '(datalength, dataoffset, filelength, sf.frames, dataend, endian, bytewidth, error) or to a listed per-container header field (engine/whstate.py, one reason each): '
+             'no other persistent state (peak edit count, codec predictor, string table) may depend on how many times the header was written', floor=18)
+    from engine.whstate import wh_state
+    n_wh_ = wh_state(ctx, prog)
+    ctx.require(n_wh_ >= 18, 'only %d header writers found' % n_wh_)
